@@ -46,4 +46,93 @@ theorem ex_pending_5000 : PendingAt exView 5000 := by
   rw [pendingAt_iff_B]; decide
 
 
+/-! ## why the node addresses of one proxy must be distinct (finding F02a)
+
+`add_proxy` accepts a proxy whose two node addresses are equal.  After a failover that makes such a
+proxy host both masters of its chunk (role position `first`), `generate_proxy_meta_cmd_args` puts
+both masters under the same `HashMap` key: the second `insert` overwrites the first, the slot
+ranges of the first master never reach the proxy, and nobody covers them. -/
+
+def dupChunk : Chunk :=
+  { role := .first, stable0 := some [(0, 8191)], stable1 := some [(8192, 16383)], mig0 := [], mig1 := []
+    proxy0 := "p1:1", proxy1 := "p2:1", host0 := "p1", host1 := "p2"
+    node0 := "n:1", node1 := "n:1", node2 := "p2:11", node3 := "p2:12" }
+
+/-- the cluster stored after `add_proxy p1:1 n:1 n:1`, `add_proxy p2:1 …`, `add_proxy p3:1 …`,
+`add_cluster c 4` (chunk `p1:1, p3:1`), `failover p3:1` (replacement `p2:1`) -/
+def dupCluster : Cluster :=
+  { epoch := 6, name := "c", chunks := [dupChunk]
+    config := { strategy := 0, maxMigrationTime := 10800, maxBlockingTime := 10000, scanInterval := 500, scanCount := 16 } }
+
+theorem dupCluster_posInv : PosInv dupCluster := by
+  intro i ch hget
+  match i with
+  | 0 =>
+    have : ch = dupChunk := by simpa [dupCluster] using hget.symm
+    subst this
+    simp [dupChunk, Chunk.migs]
+  | n + 1 => simp [dupCluster] at hget
+
+theorem dupCluster_twinInv : TwinInv dupCluster := by
+  unfold TwinInv
+  simp [Cluster.migs, dupCluster, Chunk.migs, dupChunk]
+
+theorem dupCluster_slotInv : SlotInv dupCluster := by
+  refine ⟨?_, ?_⟩
+  · intro ch hch
+    simp only [dupCluster, List.mem_cons, List.not_mem_nil, or_false] at hch
+    subst hch
+    simp [dupChunk, Chunk.stables, Chunk.migs, NormalRanges]
+  · have h0 : dupCluster.ownedSlots = List.range' 0 8192 ++ List.range' 8192 8192 := by
+      simp [Cluster.ownedSlots, dupCluster, Chunk.stables, Chunk.migs, dupChunk, slotsOf, rangeSlots]
+    have h1 : List.range SLOT_NUM = List.range' 0 8192 ++ List.range' 8192 8192 := by
+      rw [List.range_eq_range', show SLOT_NUM = 8192 + 8192 from rfl, bv_range'_split 0 8192]
+    rw [h0, h1]
+
+/-- what the broker serves for `dupCluster`: both masters sit on `p1:1` under the address `n:1` -/
+def dupView : VCluster :=
+  { name := "c", epoch := 6, config := dupCluster.config
+    nodes := [
+      { address := "n:1", proxy := "p1:1", replica := false, peers := [("p2:12", "p2:1")], slots := [⟨[(0, 8191)], .none⟩] },
+      { address := "n:1", proxy := "p1:1", replica := false, peers := [("p2:11", "p2:1")], slots := [⟨[(8192, 16383)], .none⟩] },
+      { address := "p2:11", proxy := "p2:1", replica := true, peers := [("n:1", "p1:1")], slots := [] },
+      { address := "p2:12", proxy := "p2:1", replica := true, peers := [("n:1", "p1:1")], slots := [] }] }
+
+theorem dupCluster_view : clusterStoreToCluster dupCluster = R.ok dupView := by
+  rw [clusterStoreToCluster_eq dupCluster dupCluster_posInv]
+  congr 1
+
+theorem dupView_partition : PartitionView dupView :=
+  partition_of_inv dupCluster dupView dupCluster_posInv dupCluster_twinInv dupCluster_slotInv dupCluster_view
+
+def dupNet : Addr → Option ProxyState := fun a =>
+  some (installFresh {} (dropEmpty (encodeFor false (proxyOfView a dupView))))
+
+theorem dupSynced : Synced {} dupView dupNet := fun _ _ =>
+  ⟨_, rfl, ⟨⟨false, _, WireFaithful.of_dropEmpty _, installFresh_installed _ _⟩⟩⟩
+
+/-- the meta the coordinator generates for `p1:1`, as parsed by the proxy -/
+def dupMeta : EMeta := dropEmpty (encodeFor false (proxyOfView "p1:1" dupView))
+
+/-- the first master's range `0-8191` is gone -/
+theorem dup_loc : dupMeta.loc = [("n:1", [⟨[(8192, 16383)], .none⟩])] := by decide
+
+theorem dup_peer : dupMeta.peer = [] := by decide
+
+/-- … so proxy `p1:1`, fully synced, answers `slot not covered` for slot 0, which the view assigns
+to its own node `n:1` -/
+theorem dup_route : routeWithMigration (installFresh {} dupMeta) none (some 0) = .other (.errSlotNotCovered 0) := by
+  have hi := installFresh_installed {} dupMeta
+  have hme : (installFresh {} dupMeta).migEmpty = true := by
+    show (updateTasks dupMeta.cluster [] dupMeta.loc).isEmpty = true
+    rw [dup_loc]; decide
+  have hname : dupMeta.cluster ≠ "" := by decide
+  unfold routeWithMigration migSend
+  simp only [hme, Bool.true_or, if_true]
+  rw [hi.cm_eq, hi.cfg_eq, Um.C09.routeSlot_install _ _ _ _ none 0 hname, dup_loc, dup_peer]
+  decide
+
+theorem dup_follow : follow dupNet 0 FOLLOW_FUEL "p1:1" = (0, .stuck "p1:1" (.errSlotNotCovered 0)) :=
+  follow_stuck (p := installFresh {} dupMeta) rfl dup_route _
+
 end Um.E2E
